@@ -1,6 +1,6 @@
 """C17 splay tree as a sorted map (partly decided: size bookkeeping, reference stability, direction convention, sibling mirrors).
 Equivalence with a reference sorted map over all histories is not decided (that is a model-checking / proof task)."""
-from rules import splayrules
+from rules import splayrules, shaperules
 from rules import c12
 
 LEVEL = 'other'
@@ -12,6 +12,9 @@ def run(ctx, rep):
     splayrules.check_stable(ctx, rep)
     splayrules.check_direction(ctx, rep)
     splayrules.check_mirror(ctx, rep)
+    shaperules.check_insert(ctx, rep)
+    shaperules.check_remove(ctx, rep)
+    shaperules.check_into_iter(ctx, rep)
     # the two unsafe derefs are of self.root.get() only (shared with C12 D-unsafe)
     f = ctx.facts()
     blocks, ufns, uimpls = c12.scan_unsafe(f)
